@@ -27,6 +27,7 @@ type Exchange struct {
 	Bindings []fedcat.Binding
 	Data     Val
 	HasErr   bool
+	Seq0     int64 // the world's counter when the request arrived (mutations)
 }
 
 // Router serves every subgraph of a catalog entry behind one http.RoundTripper (host "sg<i>.sim").
@@ -36,6 +37,10 @@ type Router struct {
 	mu      sync.Mutex
 	u       *fedcat.Universe
 	xs      []Exchange
+	// world: the single counter all subgraphs' mutation fields add to; a mutation request holds worldMu from arrival to
+	// completion, so that its Seq0 and its effects are well defined
+	worldMu sync.Mutex
+	world   int64
 }
 
 const fedPrelude = `
@@ -46,6 +51,7 @@ directive @key(fields: openfed__FieldSet!, resolvable: Boolean = true) repeatabl
 directive @provides(fields: openfed__FieldSet!) on FIELD_DEFINITION
 directive @requires(fields: openfed__FieldSet!) on FIELD_DEFINITION
 directive @shareable on FIELD_DEFINITION | OBJECT
+directive @inaccessible on FIELD_DEFINITION | OBJECT | INTERFACE | UNION | ARGUMENT_DEFINITION | SCALAR | ENUM | ENUM_VALUE | INPUT_OBJECT | INPUT_FIELD_DEFINITION
 `
 
 // ValidationSDL is the subgraph's own schema as a server would expose it: SDL + _entities/_Entity/_Any.
@@ -96,6 +102,9 @@ func (r *Router) SetUniverse(u *fedcat.Universe) {
 	r.u = u
 	r.xs = nil
 	r.mu.Unlock()
+	r.worldMu.Lock()
+	r.world = 0
+	r.worldMu.Unlock()
 }
 
 // Take returns and clears the recorded exchanges.
@@ -170,8 +179,8 @@ func (r *Router) Answer(idx int, u *fedcat.Universe, body []byte) Exchange {
 		x.Resp = errorBody(x.Invalid)
 		return x
 	}
-	if opType != "query" {
-		x.Invalid = "only queries are simulated, got " + opType
+	if opType != "query" && opType != "mutation" {
+		x.Invalid = "only queries and mutations are simulated, got " + opType
 		x.Resp = errorBody(x.Invalid)
 		return x
 	}
@@ -183,7 +192,17 @@ func (r *Router) Answer(idx int, u *fedcat.Universe, body []byte) Exchange {
 	}
 	x.Doc, x.Bindings = doc, bs
 	m := &Mode{Types: r.entry.Sgs[idx].Sub, U: u, Sub: true}
-	data, hasErr, errs := Exec(m, doc, bs)
+	var data Val
+	var hasErr bool
+	var errs []ExecError
+	if opType == "mutation" {
+		r.worldMu.Lock()
+		x.Seq0 = r.world
+		data, hasErr, errs, r.world = Exec(m, doc, bs, r.world)
+		r.worldMu.Unlock()
+	} else {
+		data, hasErr, errs, _ = Exec(m, doc, bs, 0)
+	}
 	x.Data, x.HasErr = data, hasErr
 	var sb strings.Builder
 	sb.WriteString(`{"data":`)
